@@ -296,6 +296,8 @@ const (
 	EvStall       = "broker-stops-reading|X:stall"
 	EvUnstall     = "broker-reads-again|X:unstall"
 	EvUnreachable = "client-becomes-unreachable|X:snfail"
+	// EvClientEOF: the client's transport connection ends (DTLS close_notify, a closed socket pair): reads return EOF
+	EvClientEOF = "client-connection-closed|X:sneof"
 )
 
 func EvAdvance(d time.Duration) string { return fmt.Sprintf("advance %v|T:%d", d, int64(d)) }
@@ -348,6 +350,9 @@ func (g *GW) applyOne(body string) error {
 		g.StallBroker(false)
 	case body == "X:snfail":
 		g.ClientUnreachable()
+	case body == "X:sneof":
+		g.snGW.InjectEOF()
+		g.S.Run()
 	case body == "T:next":
 		g.S.FireNext()
 	case strings.HasPrefix(body, "T:"):
